@@ -418,6 +418,10 @@ func export(v goja.Value) (x interface{}, err error) {
 		if r := recover(); r != nil {
 			if ie, is := r.(*goja.InterruptedError); is {
 				err = ie
+			} else if e, is := r.(error); is {
+				// What a getter threw: asking for its text
+				// can run code, too (and be interrupted).
+				err = plain(e)
 			} else {
 				err = fmt.Errorf("%v", r)
 			}
